@@ -915,3 +915,83 @@ def ring_inside_multiplied_unit(chain):
             if ring_inside_multiplied_unit(b['chain']):
                 return True
     return False
+
+
+# ------------------------------------------------------------------------------------------------
+# comparing a graph returned by the code under test with (nodes, edges) from denote_lists
+# ------------------------------------------------------------------------------------------------
+FREE_KEYS = sorted({k for _, a in ANNOTATIONS for k in a if k not in ('charge', 'weight')})
+
+
+def observed_lists(graph):
+    """({key: attrs}, {(u, v): order}) of a networkx graph, u < v where the keys can be ordered"""
+    nodes = {k: dict(d) for k, d in graph.nodes(data=True)}
+    edges = {}
+    for u, v, d in graph.edges(data=True):
+        try:
+            key = (min(u, v), max(u, v))
+        except TypeError:
+            key = (u, v)
+        edges[key] = d.get('order')
+    return nodes, edges
+
+
+def _attr_diffs(i, exp, got, free_keys):
+    out = []
+    for k, v in exp.items():
+        if k not in got or got[k] != v or type(got[k]) is not type(v):
+            out.append(('wrong-node-attributes', 'node %r: expected %s=%r, got %r' % (i, k, v, got.get(k, '<absent>'))))
+    for k in free_keys:
+        if k not in exp and k in got:
+            out.append(('wrong-node-attributes', 'node %r: unexpected key %s=%r' % (i, k, got[k])))
+    return out
+
+
+def compare_exact(exp_nodes, exp_edges, obs_nodes, obs_edges, free_keys=FREE_KEYS):
+    """list of (kind, detail); empty when the observed graph is exactly the expected one (same keys 0..n-1,
+    every expected attribute with the same value and type, no stray free key, same edges, same orders)"""
+    out = []
+    n = len(exp_nodes)
+    if len(obs_nodes) != n:
+        return [('wrong-node-count', 'expected %d nodes, got %d' % (n, len(obs_nodes)))]
+    if set(obs_nodes) != set(range(n)):
+        return [('wrong-node-keys', 'expected keys 0..%d, got %r' % (n - 1, sorted(obs_nodes, key=repr)))]
+    for i, exp in enumerate(exp_nodes):
+        out += _attr_diffs(i, exp, obs_nodes[i], free_keys)
+    if out:
+        return out
+    if set(obs_edges) != set(exp_edges):
+        return [('wrong-edge-set', 'missing %r, unexpected %r' % (sorted(set(exp_edges) - set(obs_edges)),
+                                                                  sorted(set(obs_edges) - set(exp_edges))))]
+    for e, o in exp_edges.items():
+        if obs_edges[e] != o or isinstance(obs_edges[e], bool):
+            out.append(('wrong-edge-order', 'edge %r: expected order %r, got %r' % (e, o, obs_edges[e])))
+    return out
+
+
+def isomorphic(exp_nodes, exp_edges, obs_nodes, obs_edges, free_keys=FREE_KEYS):
+    """isomorphism that respects fragname, charge, weight, the free annotation keys and the bond orders"""
+    if len(exp_nodes) != len(obs_nodes) or len(exp_edges) != len(obs_edges):
+        return False
+    ge = nx.Graph()
+    for i, a in enumerate(exp_nodes):
+        ge.add_node(i, **a)
+    for (u, v), o in exp_edges.items():
+        ge.add_edge(u, v, order=o)
+    go = nx.Graph()
+    for k, a in obs_nodes.items():
+        go.add_node(k, **a)
+    for (u, v), o in obs_edges.items():
+        go.add_edge(u, v, order=o)
+
+    def nm(a, b):
+        # a expected, b observed
+        return not _attr_diffs(0, {k: v for k, v in a.items()}, b, free_keys)
+
+    def em(a, b):
+        return a.get('order') == b.get('order')
+    return nx.is_isomorphic(ge, go, node_match=nm, edge_match=em)
+
+
+def fmt_edges(edges):
+    return sorted([list(k) + [v] for k, v in edges.items()], key=repr)
